@@ -603,6 +603,10 @@ impl MqttClientImpl {
             max_interrupted_retries: client_config.max_interrupted_retries,
         };
 
+        // normalize first so that the initial reconnect period is the effective base period
+        let mut reconnect_options = client_config.reconnect_options;
+        reconnect_options.normalize();
+
         let mut client_impl = MqttClientImpl {
             protocol_state: ProtocolState::new(state_config),
             listeners: HashMap::new(),
@@ -615,8 +619,8 @@ impl MqttClientImpl {
             last_error: None,
             last_start_connect_time: None,
             successful_connect_time: None,
-            next_reconnect_period: client_config.reconnect_options.base_reconnect_period,
-            reconnect_options: client_config.reconnect_options,
+            next_reconnect_period: reconnect_options.base_reconnect_period,
+            reconnect_options,
             connect_timeout: client_config.connect_timeout,
             callback_spawner
         };
